@@ -518,4 +518,38 @@ def TickOk (d : Dir) (t : Tick) : Prop := ∀ o ∈ t.orders, Wf o ∧ o.dir = d
 
 def BookOk (b : Book) : Prop := (∀ t ∈ b.buys, TickOk .buy t) ∧ (∀ t ∈ b.sells, TickOk .sell t)
 
+
+/-- total of the amounts of a plan -/
+def planSum (plan : List (Order × Int)) : Int := sumInt (plan.map (·.2))
+
+/-- `DistributeOrderAmountToOrders os amt p` loses nothing: the orders that are finally filled (after the re-runs on
+fewer orders) can absorb the whole `amt`.  Mirrors the recursion of `planOrders`. -/
+def lossless : Nat → List Order → Int → Int → Bool
+  | 0, _, _, _ => true
+  | fuel+1, os, amt, p =>
+    let z := shares os amt p
+    let matched := z.filter (fun oa => shareOk oa.1 oa.2 p)
+    if matched.length = z.length then decide (amt ≤ totalMatchable os p)
+    else if matched.isEmpty then lossless fuel os.dropLast amt p
+    else lossless fuel (matched.map (·.1)) amt p
+
+/-- the same for the group loop of `DistributeOrderAmountToTick` -/
+def groupsLossless : List (List Order) → Int → Int → Bool
+  | [], rem, _ => decide (rem ≤ 0)
+  | g :: gs, rem, p =>
+    let openAmt := totalMatchable g p
+    if openAmt = 0 then groupsLossless gs rem p
+    else if rem ≥ openAmt then
+      if rem - openAmt = 0 then true else groupsLossless gs (rem - openAmt) p
+    else lossless (g.length + 1) (sortOrders g) rem p
+
+/-- the same for `distributeToTicks` of `MatchAtSinglePrice` -/
+def ticksLossless : List Tick → Int → Int → Bool
+  | [], rem, _ => decide (rem ≤ 0)
+  | t :: ts, rem, p =>
+    let tickAmt := totalMatchable t.orders p
+    if tickAmt ≤ rem then
+      if rem - tickAmt = 0 then true else ticksLossless ts (rem - tickAmt) p
+    else groupsLossless (groupOrders t.orders) rem p
+
 end Comdex.Amm
